@@ -343,6 +343,91 @@ def measure_semantics(facts, kind):
     return res
 
 
+# ---------------------------------------------------------------- params.rs evaluated exhaustively over two variables (round 2)
+
+PAR = 'params::Parity'
+
+
+def _par(vs, flip):
+    return {'__struct__': PAR, '0': list(vs), '1': flip}
+
+
+def _pcall(facts, key, args):
+    it = minirust.Interp(fuel=100000, facts=facts, inline=lambda c: c.startswith(('params::', '<params::', '<&params::')))
+    return it.local_call(key, args)
+
+
+def _pval(p, x):
+    """value of a parity under the assignment x (dict var -> 0/1)"""
+    if not (isinstance(p, dict) and p.get('__struct__') == PAR and isinstance(p.get('0'), list) and isinstance(p.get('1'), bool)):
+        raise minirust.NoEval('not a Parity: %r' % (p,))
+    return (sum(x[v] for v in p['0']) + (1 if p['1'] else 0)) % 2
+
+
+def ev_params(facts):
+    """Parity / Expr over the variables {0, 1, 2}: every parity with sorted distinct variables, both flips.  -> ({clause: (ok, counterexample)}, evaluations)"""
+    import itertools
+    res = dict((k, [True, '']) for k in ('parity-add', 'constants-and-recognisers', 'negated', 'from-vec', 'quadratic/value', 'quadratic/normal-form'))
+    n = 0
+
+    def fail(k, msg):
+        if res[k][0]:
+            res[k] = [False, msg]
+    vars_ = (0, 1, 2)
+    pars = [_par(vs, f) for r in range(0, 4) for vs in itertools.combinations(vars_, r) for f in (False, True)]
+    assigns = [dict(zip(vars_, bits)) for bits in itertools.product((0, 1), repeat=3)]
+
+    def show(p):
+        return '%s%s' % (p['0'], '+1' if p['1'] else '')
+    ADD = '<&%s as std::ops::Add<&%s>>::add' % (PAR, PAR)
+    one, zero = _pcall(facts, PAR + '::one', []), _pcall(facts, '<%s as num::Zero>::zero' % PAR, [])
+    n += 2
+    if not all(_pval(one, x) == 1 for x in assigns) or one['0'] != [] or not all(_pval(zero, x) == 0 for x in assigns) or zero['0'] != []:
+        fail('constants-and-recognisers', 'one() = %s, zero() = %s' % (show(one), show(zero)))
+    for p in pars:
+        io, iz = _pcall(facts, PAR + '::is_one', [p]), _pcall(facts, '<%s as num::Zero>::is_zero' % PAR, [p])
+        ie, ln = _pcall(facts, PAR + '::is_empty', [p]), _pcall(facts, PAR + '::len', [p])
+        n += 4
+        if io != (p['0'] == [] and p['1']) or iz != (p['0'] == [] and not p['1']) or ie != (p['0'] == []) or ln != len(p['0']):
+            fail('constants-and-recognisers', 'on %s: is_one %s, is_zero %s, is_empty %s, len %s' % (show(p), io, iz, ie, ln))
+        ng = _pcall(facts, PAR + '::negated', [p])
+        n += 1
+        if ng['0'] != p['0'] or ng['1'] == p['1']:
+            fail('negated', 'negated(%s) = %s' % (show(p), show(ng)))
+        for q in pars:
+            r = _pcall(facts, ADD, [p, q])
+            n += 1
+            want_vars = sorted(set(p['0']) ^ set(q['0']))
+            if r['0'] != want_vars or r['1'] != (p['1'] != q['1']):
+                fail('parity-add', '%s + %s = %s, expected %s%s' % (show(p), show(q), show(r), want_vars, '+1' if p['1'] != q['1'] else ''))
+            e1 = _pcall(facts, 'params::Expr::quadratic', [minirust.deep_clone(p), minirust.deep_clone(q)])
+            e2 = _pcall(facts, 'params::Expr::quadratic', [minirust.deep_clone(q), minirust.deep_clone(p)])
+            n += 2
+            fs = e1.get('0') if isinstance(e1, dict) else None
+            if not isinstance(fs, list) or not fs:
+                raise minirust.NoEval('quadratic returned %r' % (e1,))
+            for x in assigns:
+                if (_pval(p, x) & _pval(q, x)) != min(_pval(f_, x) for f_ in fs):
+                    fail('quadratic/value', 'quadratic(%s, %s) = %s does not denote the product of its arguments' % (show(p), show(q), [show(f_) for f_ in fs]))
+                    break
+            key = [(f_['0'], f_['1']) for f_ in fs]
+            is_one = lambda f_: f_['0'] == [] and f_['1']
+            is_zero = lambda f_: f_['0'] == [] and not f_['1']
+            # (a constant-false factor makes the whole expression false whatever else is kept: products with zero are outside the normal-form clause)
+            degenerate = is_zero(p) or is_zero(q)
+            if e1 != e2 or key != sorted(key) or len(set(map(str, key))) != len(key) or (not degenerate and len(fs) > 1 and any(is_one(f_) for f_ in fs)):
+                fail('quadratic/normal-form', 'quadratic(%s, %s) = %s and with the arguments exchanged %s: the factors must be sorted, without duplicates and without a constant-one factor, whatever the order of the arguments'
+                     % (show(p), show(q), [show(f_) for f_ in fs], [show(f_) for f_ in (e2.get('0') or [])]))
+    fk = [k for k in facts['fns'] if k.startswith('<%s as std::convert::From<std::vec::Vec<' % PAR)]
+    for key in fk:
+        for vs in ([], [2, 0, 1], [1, 1, 0], [5]):
+            r = _pcall(facts, key, [list(vs)])
+            n += 1
+            if r['0'] != sorted(vs) or r['1'] is not False:
+                fail('from-vec', 'Parity::from(%s) = %s (sorted, not flipped; duplicates are documented as kept)' % (vs, show(r)))
+    return dict((k, tuple(v)) for k, v in res.items()), n
+
+
 # uninterpreted guard conditions / early exits present in today's rule bodies (counted 2026-09-26): only ADDITIONAL ones make a mismatch undecided
 BASELINE_OPAQUE = {'basic_rules::remove_pair_unchecked': 4}
 BASELINE_EXITS = {}
@@ -399,8 +484,24 @@ def run(ck):
               'fuse_gadgets constrains the phase of a gadget hub but does not require its parity to be absent: a hub with an odd parity is a pi hub, which negates the gadget angle')
     # D4
     P = 'params::Parity'
+    params_decided = False
+    try:
+        sem, nev = ev_params(facts)
+        for name, (ok, cex) in sorted(sem.items()):
+            rule = 'R-NORMAL-FORM' if name.startswith('quadratic') else 'R-CTOR-RECOG' if name == 'constants-and-recognisers' else 'E3-params'
+            ck.ob(rule, ('Expr::' if name.startswith('quadratic') else 'Parity/') + name, ok, 'quizx/src/params.rs', 'params.rs evaluated over every parity on three variables (%d evaluations): %s' % (nev, cex), sample={'evaluations': nev})
+        ck.floor('E3-params-evaluations', nev, 854)
+        ck.note('params.rs: decided by evaluation over every parity on three variables (%d evaluations)' % nev)
+        params_decided = True
+    except minirust.Panics as ex:
+        ck.ob('E3-params', 'no-panic', False, 'quizx/src/params.rs', 'a parity operation panics on a small parity: %s' % ex)
+        params_decided = True
+    except (minirust.NoEval, minirust.Proceed, TypeError, KeyError, IndexError, AttributeError, ValueError) as ex:
+        ck.note('params.rs: the evaluator declined (%s); syntactic readings used, positive matches only' % ex)
     for ctor, rec, other in (('params::Parity::one', 'params::Parity::is_one', ([0], False)), ('<params::Parity as num::Zero>::zero', '<params::Parity as num::Zero>::is_zero', ([], True))):
         cf, rf = ck.fn(ctor), ck.fn(rec)
+        if params_decided:
+            continue
         lit = ctor_literal(cf)
         if lit is None:
             ck.violation('R-CTOR-RECOG', ctor + '/literal', ck.site(ctor), 'constructor literal not recognised (anchor-missing)')
@@ -411,19 +512,14 @@ def run(ck):
             acc = 'panics'
         except ValueError as ex:
             acc = str(ex)
-        ck.ob('R-CTOR-RECOG', '%s~%s/accepts-own-constructor' % (ctor.rsplit('::', 1)[1], rec.rsplit('::', 1)[1]), acc is True, ck.site(rec),
-              '%s() builds Parity(%s, %s) but %s answers %s on it' % (ctor, lit[0], lit[1], rec, acc), sample={'literal': str(lit), 'recogniser_says': str(acc)})
-        for probe in (other, ([0], False), ([0], True), ([1, 2], False)):
-            if probe == (lit[0], lit[1]):
-                continue
-            try:
-                acc2 = parity_eval(rf, probe[0], probe[1])
-            except (IndexError, ValueError) as ex:
-                acc2 = 'error %r' % ex
-            ck.ob('R-CTOR-RECOG', '%s/rejects/%s' % (rec.rsplit('::', 1)[1], probe), acc2 is False, ck.site(rec), '%s answers %s on Parity%s, which is not the constant it recognises' % (rec, acc2, probe))
-    qs = quadratic_shape(ck.fn('params::Expr::quadratic'))
-    for name, ok in zip(('sorts', 'drops-constant-one', 'deduplicates'), qs):
-        ck.ob('R-NORMAL-FORM', 'Expr::quadratic/' + name, ok, ck.site('params::Expr::quadratic'), 'Expr::quadratic no longer %s its factors' % name)
+        ck.ob3('R-CTOR-RECOG', '%s~%s/accepts-own-constructor' % (ctor.rsplit('::', 1)[1], rec.rsplit('::', 1)[1]), True if acc is True else (False if acc is False else None), ck.site(rec),
+               '%s() builds Parity(%s, %s) but %s answers %s on it' % (ctor, lit[0], lit[1], rec, acc), sample={'literal': str(lit), 'recogniser_says': str(acc)})
+    if not params_decided:
+        qs = quadratic_shape(ck.fn('params::Expr::quadratic'))
+        for name, ok in zip(('sorts', 'drops-constant-one', 'deduplicates'), qs):
+            ck.ob3('R-NORMAL-FORM', 'Expr::quadratic/' + name, True if ok else None, ck.site('params::Expr::quadratic'), 'Expr::quadratic is not evaluable and was not recognised to %s its factors' % name)
+    else:
+        ck.fn('params::Expr::quadratic')
     for adt in (P, 'params::Expr'):
         for name, _ty, vis in rencap.adt_fields(facts, adt) or []:
             ck.ob('R-ENCAP', '%s/private-field/%s' % (adt.rsplit('::', 1)[1], name), vis.startswith('Restricted'), adt, 'field %s of %s is visible outside params.rs' % (name, adt))
